@@ -20,6 +20,7 @@ extern "C" {
 void __tsan_acquire(void*) __attribute__((weak));
 void __tsan_release(void*) __attribute__((weak));
 
+long __real_syscall(long number, long a1, long a2, long a3, long a4, long a5, long a6);
 int __real_pthread_create(pthread_t*, const pthread_attr_t*, void* (*)(void*), void*);
 int __real_pthread_join(pthread_t, void**);
 int __real_pthread_detach(pthread_t);
@@ -101,7 +102,7 @@ thread_local SimThread* tl_self = nullptr;
 FatalHandler g_fatal = nullptr;
 
 inline long futex(std::atomic<int>* addr, int op, int val) {
-  return syscall(SYS_futex, reinterpret_cast<int*>(addr), op, val, nullptr, nullptr, 0);
+  return __real_syscall(SYS_futex, (long)reinterpret_cast<int*>(addr), (long)op, (long)val, 0L, 0L, 0L);   // the scheduler's own parking: never simulated
 }
 
 void park(SimThread* t) {
@@ -717,6 +718,9 @@ int __wrap_pthread_once(pthread_once_t* ctl, void (*fn)(void)) {
   if (!self) return __real_pthread_once(ctl, fn);
   for (;;) {
     auto& os = S.onces[ctl];
+    // a once object that has been run holds glibc's "done" value; an untouched one at a remembered address is a new object
+    // in recycled memory (every std::promise carries one), not the old one
+    if (os.state == 2 && *ctl == PTHREAD_ONCE_INIT) os.state = 0;
     if (os.state == 2) return 0;
     if (os.state == 0) {
       os.state = 1;
@@ -735,6 +739,36 @@ int __wrap_sched_yield(void) {
   if (S.cfg.policy == POLICY_PCT) tl_self->prio = --S.pctLow;
   sched_point(tl_self);
   return 0;
+}
+
+// libstdc++'s std::future / std::promise block on a futex through syscall(2) directly, not through pthread: without this
+// a simulated thread would really sleep while it is the one the scheduler lets run (found with ninja's console pool, whose
+// jobs wait on a std::future).  All simulated threads are serialised, so a futex wait is "blocked until the word changes".
+long __wrap_syscall(long number, long a1, long a2, long a3, long a4, long a5, long a6) {
+  if (!tl_self || number != SYS_futex) return __real_syscall(number, a1, a2, a3, a4, a5, a6);
+  int* addr = (int*)a1;
+  int op = (int)a2 & 127;   // FUTEX_CMD_MASK
+  if (op == 0 /*FUTEX_WAIT*/ || op == 9 /*FUTEX_WAIT_BITSET*/) {
+    int val = (int)a3;
+    if (__atomic_load_n(addr, __ATOMIC_SEQ_CST) != val) {
+      errno = EAGAIN;
+      return -1;
+    }
+    const struct timespec* ts = (const struct timespec*)a4;
+    uint64_t deadline = 0;
+    if (ts) deadline = op == 0 ? S.now + tsToNs(ts) : tsToNs(ts);   // relative for WAIT, absolute for WAIT_BITSET
+    bool ok = sim::block_until([addr, val]() { return __atomic_load_n(addr, __ATOMIC_SEQ_CST) != val; }, deadline, "futex");
+    if (!ok) {
+      errno = ETIMEDOUT;
+      return -1;
+    }
+    return 0;
+  }
+  if (op == 1 /*FUTEX_WAKE*/ || op == 10 /*FUTEX_WAKE_BITSET*/) {
+    sched_point(tl_self);   // waiters re-evaluate their predicate
+    return 0;
+  }
+  return __real_syscall(number, a1, a2, a3, a4, a5, a6);
 }
 
 int __wrap_nanosleep(const struct timespec* req, struct timespec* rem) {
